@@ -1,6 +1,141 @@
 import DdsModel.Drv.Util
+import DdsModel.Mip
+namespace Dds.Drv.C16
+open Dds Dds.Mip Dds.Drv
+
+def parseFilter16 : String → Option Filter
+  | "nearest" => some .nearest
+  | "box" => some .box
+  | "triangle" => some .triangle
+  | "mitchell" => some .mitchell
+  | "lanczos3" => some .lanczos3
+  | _ => none
+
+def parsePrec16 : String → Option Prec
+  | "u8" => some .u8
+  | "u16" => some .u16
+  | "f32" => some .f32
+  | _ => none
+
+/-- number of channels of `g | a | rgb | rgba` -/
+def parseChan16 : String → Option Nat
+  | "g" => some 1
+  | "a" => some 1
+  | "rgb" => some 3
+  | "rgba" => some 4
+  | _ => none
+
+/-- bytes per pixel of the lossless target the harness encodes into -/
+def targetBpp16 (chan : String) (p : Prec) : Nat :=
+  match chan, p with
+  | "g", .u8 => 1
+  | "a", .u8 => 1
+  | _, .u8 => 4
+  | "g", .u16 => 2
+  | _, .u16 => 8
+  | "g", .f32 => 4
+  | _, .f32 => 16
+
+/-- a convex stand-in for the resizer: every output pixel = source pixel 0. For constant images
+every normalised kernel gives the same result (`C16.constant_preserved`). -/
+def pointKernel : Kernel := ⟨fun _ _ _ dw dh => List.replicate (dw * dh) [(0, 1)]⟩
+
+/-- value of a finite binary32 bit pattern (exact) -/
+def f32ToRat16 (b : Nat) : Rat :=
+  let ex := (b / 8388608) % 256
+  let m := b % 8388608
+  let scale (e : Int) : Rat :=
+    if e ≥ 0 then ((2 ^ e.toNat : Nat) : Rat) else 1 / ((2 ^ (-e).toNat : Nat) : Rat)
+  let mag : Rat :=
+    if ex = 0 then (m : Rat) * scale (-149) else ((8388608 + m : Nat) : Rat) * scale ((ex : Int) - 150)
+  if b / 2147483648 % 2 = 1 then -mag else mag
+
+def rawToRat (p : Prec) (raw : Nat) : Rat :=
+  match p with
+  | .f32 => f32ToRat16 raw
+  | _ => (raw : Rat)
+
+/-- print a model value: integers as such; an f32 value as the bit pattern of the input sample it
+equals (`raw`), of +0.0, or `other` (the model never produces anything else for a constant image) -/
+def showVal (p : Prec) (raw : Nat) (v : Rat) : String :=
+  match p with
+  | .f32 => if v = f32ToRat16 raw then toString raw else if v = 0 then "0" else "other"
+  | _ => toString v.floor.toNat
+
+def finiteF32 (b : Nat) : Bool := b < 4294967296 && (b / 8388608) % 256 != 255
+
+/-- `const:<c0>:<c1>:<c2>:<c3>` -/
+def parseConst16 (p : Prec) (s : String) : Option (Option (List Nat)) :=
+  match splitColon s with
+  | ["const", a, b, c, d] =>
+    match natsOf [a, b, c, d] with
+    | none => none
+    | some l =>
+      let ok := match p with
+        | .u8 => l.all (· ≤ 255)
+        | .u16 => l.all (· ≤ 65535)
+        | .f32 => l.all finiteF32
+      if ok then some (some l) else none
+  | [w] => if w ∈ ["opaque", "band", "noise", "holes"] then some none else none
+  | _ => none
+
+/-- per channel: the one value every sample of every level has, or `varies` -/
+def constToken (p : Prec) (col : List Nat) (nch : Nat) (levels : List Img) : String :=
+  ":".intercalate <| (List.range nch).map fun c =>
+    let vals := levels.flatMap fun l => (l.planes.getD c [])
+    match vals with
+    | [] => "varies"
+    | v :: rest => if rest.all (· == v) then showVal p (col.getD c 0) v else "varies"
+
+/-- `M <w> <h> <chan> <prec> <filter> <sa> <variant> <content> <seed>` -/
+def runC16 (line : String) : String :=
+  match toks line with
+  | ["M", w, h, chan, prec, filter, sa, variant, content, seed] =>
+    match nat? w, nat? h, parseChan16 chan, parsePrec16 prec, parseFilter16 filter, nat? seed with
+    | some w, some h, some nch, some p, some f, some seed =>
+      if w = 0 ∨ h = 0 ∨ w > 4096 ∨ h > 4096 ∨ seed ≥ 2 ^ 64 then "bad-case"
+      else if ¬ (sa = "0" ∨ sa = "1") then "bad-case"
+      else if variant ∉ ["al", "o1", "o2", "o3", "st"] then "bad-case"
+      else
+      match parseConst16 p content with
+      | none => "bad-case"
+      | some col =>
+        let sa := sa == "1"
+        -- Header::new_image(w, h, format).with_mipmaps()
+        let mips := maxMipCount (max w h)
+        match Texture.create w h mips (.fixed (targetBpp16 chan p)) with
+        | .error _ => "err layout"
+        | .ok t =>
+          let e := Enc.new (.texture t) 1 1
+          -- the cursor bookkeeping of the whole call (Encoder.lean)
+          let (e', r) := e.write w h false
+          if r ≠ .ok then "err write"
+          else if e'.iter.currentP ≠ some none then "err not-done"
+          else
+          -- what is generated
+          match e.iter.currentP, e.iter.advanceP with
+          | some (some s0), some it1 =>
+            let em := if e.toGen s0 > 0 then emitted it1 f (w, h) else some []
+            match em with
+            | none => "panic"
+            | some pl =>
+              let sizes := (w, h) :: pl.map (·.1)
+              let sizesS := ",".intercalate (sizes.map fun s => s!"{s.1}x{s.2}")
+              let planS := if pl.isEmpty then "-" else ",".intercalate (pl.map fun x => toString x.2)
+              let constS :=
+                match col with
+                | none => "-"
+                | some c =>
+                  let src : Img := ⟨w, h, (c.take nch).map fun v => List.replicate (w * h) (rawToRat p v)⟩
+                  let levels := runPlan (resizeImg pointKernel f p sa) src pl []
+                  if levels.isEmpty then "-" else constToken p c nch levels
+              s!"ok n={sizes.length} sizes={sizesS} plan={planS} const={constS}"
+          | _, _ => "panic"
+    | _, _, _, _, _, _ => "bad-case"
+  | _ => "bad-case"
+
+end Dds.Drv.C16
+
 namespace Dds.Drv
-
-def runC16 (_line : String) : String := "not-modelled"
-
+def runC16 : String → String := C16.runC16
 end Dds.Drv
